@@ -63,6 +63,11 @@ def match(src, out):
       return t
     for t_new in new_outputs:
       m.alias[t_new] = resolve(t_new)
+      a, b = og['tensors'][t_new], og['tensors'][m.alias[t_new]]
+      if a['shape'] != b['shape']:
+        raise Violation('skeleton_inserted_tensor_shape',
+                        'sg%d t%d %s has shape %s, the tensor it re-encodes (t%d) %s' % (
+                            si, t_new, a['name'], a['shape'], m.alias[t_new], b['shape']))
     if len(remaining) != len(sg['ops']):
       raise Violation('skeleton_op_count', 'sg%d source %d ops, result %d non-inserted ops' % (si, len(sg['ops']), len(remaining)))
     for k, oi in enumerate(remaining):
